@@ -21,6 +21,13 @@
 //!             behind them; in three quarters of them a participant handles the messages of one
 //!             transaction one at a time (different transactions run side by side), in the rest
 //!             everything is concurrent.
+//!  walfault : the sim schedule with a coordinator that logs to a real `TxWal` whose size limit is
+//!             a seeded number of bytes (rotation off), so that from some point on begin / vote /
+//!             commit / abort records are refused; at a seeded event the coordinator crashes, a new
+//!             one recovers from the log (which has room again), settles the in-doubt transactions
+//!             (`get_pending_decisions` + `complete_*`), and the schedule continues on it. A call
+//!             that fails is never announced (decisions are only sent after Ok). Extra clause: a
+//!             decision announced before the crash is the decision after it.
 //!  burst    : part of the threaded mode: duplicates of one PREPARE and its ABORT released by a
 //!             barrier on one participant, then a second transaction commits on the same key and
 //!             the first abort is delivered again.
@@ -504,7 +511,7 @@ impl<'a> Sim<'a> {
             if let Some(&(first, fsrc)) = self.obs[i].decisions.first() {
                 if first != d {
                     self.found.push(Found {
-                        sig: format!("decision-changed-across-coordinator-restart:{:?}({})-then-{:?}({})", first, short_src(fsrc), d, short_src(src)),
+                        sig: format!("decision-changed-across-coordinator-restart:{:?}({})-then-{:?}", first, short_src(fsrc), d),
                         detail: format!(
                             "t{}: {:?} was decided and announced at `{}`; after the coordinator crashed and recovered from its log, {:?} was decided at `{}`",
                             i, first, fsrc, d, src
@@ -1391,8 +1398,33 @@ fn witness_race() {
     println!("not reproduced in 300000 iterations");
 }
 
+/// `c03 witness-timeout --scratch <dir>`: a prepared transaction is timed out (abort broadcast
+/// queued), the coordinator restarts from its log and commits it. No oracle involved.
+fn witness_timeout(args: &Args) {
+    let dir = args.scratch_dir("c03wt");
+    let path = dir.join("tx.wal");
+    let who = "coord".to_string();
+    let yes = |h: u64| PrepareVote::Yes { lock_handle: h, delta: tensor_chain::consensus::DeltaVector::zero(DIM) };
+    let t0;
+    {
+        let c = DistributedTxCoordinator::new(ConsensusManager::default_config(), coordinator_config()).with_wal(tensor_chain::tx_wal::TxWal::open(&path).unwrap());
+        t0 = c.begin(&who, &[0, 1]).unwrap().tx_id;
+        println!("votes: {:?} {:?}", c.record_vote(t0, 0, yes(11)), c.record_vote(t0, 1, yes(12)));
+        std::thread::sleep(Duration::from_millis(2));
+        println!("cleanup_timeouts() -> contains t0: {}", c.cleanup_timeouts().contains(&t0));
+        println!("take_pending_aborts() -> {:?}   (ABORT is broadcast to shards 0 and 1; they roll back)", c.take_pending_aborts().iter().map(|(id, r, s)| (*id == t0, r.clone(), s.clone())).collect::<Vec<_>>());
+    }
+    let c = DistributedTxCoordinator::new(ConsensusManager::default_config(), coordinator_config()).with_wal(tensor_chain::tx_wal::TxWal::open(&path).unwrap());
+    println!("restart: recover_from_wal -> {:?}; t0 is {:?}", c.recover_from_wal().map(|s| s.pending_prepare).map_err(|e| e.to_string()), c.get(t0).map(|t| t.phase));
+    println!("commit(t0) -> {:?}   (COMMIT is now announced for a transaction whose ABORT was broadcast)", c.commit(t0));
+}
+
 fn main() {
     let args = Args::parse();
+    if args.rest.iter().any(|a| a == "witness-timeout") {
+        witness_timeout(&args);
+        return;
+    }
     if args.rest.iter().any(|a| a == "witness-race") {
         witness_race();
         return;
@@ -1433,12 +1465,12 @@ fn main() {
         }
     } else {
         if mode == "both" || mode == "sim" {
-            let n = args.extra_u64("cases", args.by_tier(12_000, 600_000));
+            let n = args.extra_u64("cases", args.by_tier(10_000, 600_000));
             let rep = par_cases(args.threads, args.seed, n, args.budget(50, 600), |_i, s, r| sim_case(s, r));
             total.merge(rep);
-            let n = args.extra_u64("walfault-cases", args.by_tier(4_000, 150_000));
+            let n = args.extra_u64("walfault-cases", args.by_tier(3_000, 150_000));
             let scratch = args.scratch.clone();
-            let rep = par_cases(args.threads, args.seed ^ 0x3C, n, args.budget(25, 240), move |_i, s, r| walfault_case(s, r, &scratch));
+            let rep = par_cases(args.threads, args.seed ^ 0x3C, n, args.budget(20, 240), move |_i, s, r| walfault_case(s, r, &scratch));
             total.merge(rep);
         }
         if mode == "both" || mode == "threaded" {
@@ -1471,7 +1503,7 @@ fn main() {
                 ("wal_append_refusals_injected", 500),
                 ("decisions_attempted_with_refusing_wal", 200),
                 ("recoveries_after_refusal", 200),
-                ("prepared_restored_after_restart", 50),
+                ("prepared_restored_after_restart", 30),
             ]);
         }
         if mode == "both" || mode == "threaded" {
@@ -1486,6 +1518,7 @@ fn main() {
             "a timeout event = sleep 1.1 ms + cleanup_timeouts() with prepare_timeout_ms = 0; the list it returns is the observation, the clock is not judged".into(),
             "re-delivery of a commit that was already applied is not judged (the statement is silent); the reference state follows every successful TxParticipant::commit".into(),
             "one case in six also uses typed operations (NodeCreate/NodeDelete/TableInsert) next to Put/Delete on the same storage keys (node:n0, table:tb), i.e. overlapping data under different lock names".into(),
+            "walfault part: the participants do not crash; messages in flight survive the coordinator crash; a vote counts as accepted only if the coordinator recorded it (with a log, record_vote answers Ok(None) without recording when the vote cannot be logged); transactions restored as Prepared keep the 5 s default timeout, which never fires within a case".into(),
             "a vote is attributed to the shard that produced it; a shard outside the participant list that receives a mis-routed PREPARE answers like any other, and its vote is not a participant's vote: commit still needs an accepted yes of every participant".into(),
             "threaded final-state clause: a key written by committed-and-applied transactions must hold what one of them left (order between them not judged); sound because a transaction's undo image is captured and re-applied under its own key lock".into(),
         ],
